@@ -75,11 +75,13 @@ func AvcSeqHeader(inc, ver int) []byte {
 	return b
 }
 
-// AacSeqHeader: AudioSpecificConfig AAC-LC; ver selects sampling index (distinct content).
-func AacSeqHeader(ver int) []byte {
+// AacSeqHeader: AudioSpecificConfig AAC-LC; ver selects the sampling index; trailing tag bytes
+// (legal: an ASC may carry extension bytes) make every header unique per incarnation/version.
+func AacSeqHeader(inc, ver int) []byte {
 	idx := []byte{4, 3, 5, 6}[ver%4] // 44.1k, 48k, 32k, 24k
 	asc := []byte{2<<3 | idx>>1, idx<<7 | 2<<3}
-	return append([]byte{0xAF, 0x00}, asc...)
+	b := append([]byte{0xAF, 0x00}, asc...)
+	return append(b, Tag(inc, SeqHdrTagBase+500+ver)...)
 }
 
 func Metadata(inc, ver int, sdf bool) []byte {
@@ -112,10 +114,22 @@ func VideoFrame(r *rand.Rand, inc, idx int, key bool, cts int, size int) []byte 
 }
 
 func AudioFrame(r *rand.Rand, inc, idx int, size int) []byte {
+	return AudioFrameCodec(r, inc, idx, size, "")
+}
+
+func AudioFrameCodec(r *rand.Rand, inc, idx int, size int, codec string) []byte {
 	if size < 14 {
 		size = 14
 	}
 	b := []byte{0xAF, 0x01}
+	switch codec {
+	case "g711a":
+		b = []byte{0x72}
+	case "g711u":
+		b = []byte{0x82}
+	case "opus":
+		b = []byte{0xDF, 0x01}
+	}
 	b = append(b, Tag(inc, idx)...)
 	b = append(b, fill(r, size-len(b))...)
 	return b
@@ -132,6 +146,8 @@ type Shape struct {
 	GopLen      int // video frames per gop (incl. key)
 	AudioPerVid int
 	HdrChangeAt int // gop index at which new sequence headers are published (0 = never)
+	HdrChangeMid bool   // publish the new headers in the middle of that gop (no key frame follows directly)
+	AudioCodec   string // "" = aac, "g711a", "g711u", "opus" (no sequence header for non-AAC)
 	MidMeta     bool // a metadata message in the middle of a gop
 	Empties     bool // zero-length messages sprinkled in
 	TsMode      int  // 0 monotonic small; 1 across 0xFFFFFF; 2 near 2^32; 3 non-monotonic jitter
@@ -139,7 +155,10 @@ type Shape struct {
 }
 
 // Build generates the publish list for one incarnation.
-func Build(r *rand.Rand, inc int, sh Shape) []PubMsg {
+func Build(r *rand.Rand, inc int, sh Shape) []PubMsg { return BuildAt(r, inc, sh, 0) }
+
+// BuildAt builds one incarnation whose message indices start at base.
+func BuildAt(r *rand.Rand, inc int, sh Shape, base int) []PubMsg {
 	var out []PubMsg
 	vsh, ash, meta, gop := -1, -1, -1, -1
 	var ts uint32
@@ -158,7 +177,7 @@ func Build(r *rand.Rand, inc int, sh Shape) []PubMsg {
 		return 30 + r.Intn(400)
 	}
 	add := func(k Kind, typ uint8, p []byte, sdf bool) {
-		m := PubMsg{Idx: len(out), Kind: k, Type: typ, Ts: ts, Payload: p, Inc: inc, VshIdx: vsh, AshIdx: ash, MetaIdx: meta, Gop: gop, Sdf: sdf}
+		m := PubMsg{Idx: base + len(out), Kind: k, Type: typ, Ts: ts, Payload: p, Inc: inc, VshIdx: vsh, AshIdx: ash, MetaIdx: meta, Gop: gop, Sdf: sdf}
 		if sh.TsMode == 3 && k != Vsh && k != Ash && k != Meta {
 			m.Ts = ts + uint32(r.Intn(40)) - 20
 		}
@@ -168,24 +187,24 @@ func Build(r *rand.Rand, inc int, sh Shape) []PubMsg {
 	headers := func() {
 		if sh.Meta {
 			add(Meta, 18, Metadata(inc, hdrVer, sh.MetaSdf), sh.MetaSdf)
-			meta = len(out) - 1
-			out[meta].MetaIdx = meta
+			meta = base + len(out) - 1
+			out[meta-base].MetaIdx = meta
 		}
 		if sh.Video {
 			add(Vsh, 9, AvcSeqHeader(inc, hdrVer), false)
-			vsh = len(out) - 1
-			out[vsh].VshIdx = vsh
+			vsh = base + len(out) - 1
+			out[vsh-base].VshIdx = vsh
 		}
-		if sh.Audio {
-			add(Ash, 8, AacSeqHeader(hdrVer), false)
-			ash = len(out) - 1
-			out[ash].AshIdx = ash
+		if sh.Audio && sh.AudioCodec == "" {
+			add(Ash, 8, AacSeqHeader(inc, hdrVer), false)
+			ash = base + len(out) - 1
+			out[ash-base].AshIdx = ash
 		}
 		hdrVer++
 	}
 	headers()
 	for g := 0; g < sh.Gops; g++ {
-		if sh.HdrChangeAt > 0 && g == sh.HdrChangeAt {
+		if sh.HdrChangeAt > 0 && g == sh.HdrChangeAt && !sh.HdrChangeMid {
 			headers()
 		}
 		nv := sh.GopLen
@@ -206,19 +225,22 @@ func Build(r *rand.Rand, inc int, sh Shape) []PubMsg {
 				if key {
 					k = Key
 				}
-				add(k, 9, VideoFrame(r, inc, len(out), key, cts, size()), false)
+				add(k, 9, VideoFrame(r, inc, base+len(out), key, cts, size()), false)
 			}
 			for a := 0; a < sh.AudioPerVid && sh.Audio; a++ {
-				add(Audio, 8, AudioFrame(r, inc, len(out), 14+r.Intn(300)), false)
+				add(Audio, 8, AudioFrameCodec(r, inc, base+len(out), 14+r.Intn(300), sh.AudioCodec), false)
 				ts += 10
+			}
+			if sh.HdrChangeAt > 0 && g == sh.HdrChangeAt && sh.HdrChangeMid && f == nv/2 {
+				headers()
 			}
 			if sh.Empties && r.Intn(6) == 0 {
 				add(Empty, []uint8{8, 9}[r.Intn(2)], nil, false)
 			}
 			if sh.MidMeta && f == nv/2 && g%2 == 1 {
 				add(Meta, 18, Metadata(inc, 100+g, !sh.MetaSdf), !sh.MetaSdf)
-				meta = len(out) - 1
-				out[meta].MetaIdx = meta
+				meta = base + len(out) - 1
+				out[meta-base].MetaIdx = meta
 			}
 			ts += 33
 		}
@@ -282,3 +304,35 @@ func (ix *Index) Lookup(typ uint8, payload []byte) (int, bool) {
 func (s Shape) String() string {
 	return fmt.Sprintf("%s(v=%v a=%v meta=%v gops=%d×%d hdrchg=%d ts=%d)", s.Name, s.Video, s.Audio, s.Meta, s.Gops, s.GopLen, s.HdrChangeAt, s.TsMode)
 }
+
+// FoundTag is a tag located inside a byte string.
+type FoundTag struct {
+	Inc, Idx, Pos int
+}
+
+// FindTags scans b for embedded tags.
+func FindTags(b []byte) (out []FoundTag) {
+	for i := 0; i+12 <= len(b); i++ {
+		if b[i] != 'L' || b[i+1] != 'V' || b[i+2] != 'T' || b[i+3]&0x80 == 0 {
+			continue
+		}
+		idx := 0
+		ok := true
+		for k := 0; k < 8; k++ {
+			x := b[i+4+k]
+			if x&0xf0 != 0x10 {
+				ok = false
+				break
+			}
+			idx = idx<<4 | int(x&0x0f)
+		}
+		if ok {
+			out = append(out, FoundTag{Inc: int(b[i+3] & 0x7f), Idx: idx, Pos: i})
+			i += 11
+		}
+	}
+	return
+}
+
+// SeqHeaderVersionTag: the PPS of sequence-header version `ver` carries Tag(inc, 1000000+ver).
+const SeqHdrTagBase = 1000000
